@@ -101,7 +101,8 @@ func newWorld(run *evid.Run, prefix string) *world {
 	// a view of a view is the view of the joined prefix: every other world with a multi-element
 	// prefix is built by nesting Sub, one element at a time
 	nestCount++
-	if parts := strings.Split(prefix, "/"); len(parts) > 1 && nestCount%2 == 0 {
+	// (a prefix whose neighbouring elements are the same text is always nested: two views with equal prefix strings)
+	if parts := strings.Split(prefix, "/"); len(parts) > 1 && (nestCount%2 == 0 || parts[0] == parts[1]) {
 		view := w.recd.Interface()
 		for _, p := range parts {
 			view = ocifilter.Sub(view, p)
@@ -476,7 +477,7 @@ func main() {
 	run.Assume("for an ill-formed caller name any failure is accepted; success is a violation because prefix/n is then not a repository name")
 	run.Assume("auth scopes in generated contexts have non-empty resource names")
 
-	prefixes := []string{"foo", "foo/bar", "p/q/r", "a", "v2/blobs"}
+	prefixes := []string{"foo", "foo/bar", "p/q/r", "a", "v2/blobs", "a/a"}
 	u := model.SmallUniverse()
 	u.Repos = []string{"a", "a/b", "c", "d"}
 	ill := append([]string(nil), illFormed...)
